@@ -97,7 +97,7 @@ def toric2d_tie(rep, work, recs):
         return
     pt = lambda c: '(' + ', '.join(coq_Z(x) for x in c) + ')'
     pl = lambda l: '[' + '; '.join(pt(c) for c in l) + ']'
-    lines = ['From Coq Require Import ZArith List Bool.\nImport ListNotations.\nFrom PQ Require Import Toric2D.\nFrom PQ Require Planar2D RotatedPlanar2D Toric3D Planar3D Planar3DLogicals RotatedPlanar3D RotatedPlanar3DLogicals XCube.\nLocal Open Scope Z_scope.\n']
+    lines = ['From Coq Require Import ZArith List Bool.\nImport ListNotations.\nFrom PQ Require Import Toric2D.\nFrom PQ Require Planar2D Planar2DLogicals RotatedPlanar2D Toric3D Planar3D Planar3DLogicals RotatedPlanar3D RotatedPlanar3DLogicals XCube.\nLocal Open Scope Z_scope.\n']
     for r in items:
         sup = '[' + '; '.join(pl([it[1] for it in op]) for op in r['stab_ops']) + ']'
         lg = [pl([it[1] for it in op]) for op in r['lx_ops'] + r['lz_ops']]
@@ -124,8 +124,11 @@ def toric2d_tie(rep, work, recs):
             lines.append('Eval vm_compute in ' + r['cls'][:-4] + '.table_matches %d %d %d %s %s %s%s.\n' % (
                 r['size'][0], r['size'][1], r['size'][2], pl(r['qubits']), pl(r['stab_coords']), sup, extra))
         else:
-            lines.append('Eval vm_compute in ' + r['cls'][:-4] + '.table_matches %d %d %s %s %s.\n' % (
-                r['size'][0], r['size'][1], pl(r['qubits']), pl(r['stab_coords']), sup))
+            extra = ''
+            if r['cls'] == 'Planar2DCode':
+                extra = (' && Planar2DLogicals.logicals_match %d %d %s' % (r['size'][0], r['size'][1], ' '.join(lg))) if len(lg) == 2 else ' && false'
+            lines.append('Eval vm_compute in ' + r['cls'][:-4] + '.table_matches %d %d %s %s %s%s.\n' % (
+                r['size'][0], r['size'][1], pl(r['qubits']), pl(r['stab_coords']), sup, extra))
     f = os.path.join(work, 'c01_toric2d.v')
     open(f, 'w').write(''.join(lines))
     rc, o, e, dt = coqc_many([f])[f]
@@ -139,8 +142,8 @@ def toric2d_tie(rep, work, recs):
         if not ok:
             key = cc.inst_key(r)
             rep.violation(dict(key, site='layer-P', clause='model-matches-implementation'),
-                          '%s: qubit coordinates / stabilizer coordinates / stabilizer supports differ from the parametric Layer-P model '
-                          '(the all-sizes commutation theorem no longer applies to the implementation)' % r['tag'],
+                          '%s: qubit coordinates / stabilizer coordinates / stabilizer supports / listed logicals differ from the parametric Layer-P model '
+                          '(the all-sizes theorems no longer apply to the implementation)' % r['tag'],
                           {'instance': key, 'broken': r['cls'][:-4] + '.table_matches'}, no_input=True)
 
 
